@@ -1,7 +1,8 @@
 # C02: reported total mass equals the true integral; densities integrate to one
 from . import lin, common as C
 PROP = "C02"
-PROPS_FILE = "props/C02.v"
+PROPS_FILE = ["props/C02.v", "props/GI.v"]
+TRUSTED_EXTRA = ["props/GI.v (the Gaussian-integral specification as a theorem about iterated improper Riemann integrals, at Coq's real numbers: stdlib Reals + Coquelicot + base/RField.v) depends on the standard-library axioms ClassicalDedekindReals.sig_not_dec, sig_forall_dec, FunctionalExtensionality.functional_extensionality_dep, Classical_Prop.classic, Epsilon.epsilon_statement (choiceType structure of R); the theorems of props/C02.v themselves (every real field) stay closed under the global context"]
 RULE = ('cases = GaussianPDF/GaussianDiagPDF constructor x {Sigma; Sigma+Lambda; Sigma+Lambda+ln_det} x (R,D); measures (full/diag) queried in three orders (light first, full first, get_density first) then normalised; every density-returning API: get_marginal, linear sum, condition_on_x (5 classes), joint/marginal transformation (5 classes x 3 batch layouts x 3 dimension regimes)' "; rational parameters (small integers over denominators 1,2,4; SPD = B B' + d I, cond <= 1e3), random constructor "
         "argument combination; non-trivial = more than one scalar dimension/component involved; distinct = SHA1 of the input description")
 EXPLANATION = ('model (Measure.v mk_pdf/log_integral/normalize/get_density, Pdf.v, Cond.v) at Qc vs implementation on all public attributes and evaluate_ln; oracle: true log-integral by numpy inv/slogdet, independent normal log-density of the exactly known mean/covariance')
